@@ -42,6 +42,8 @@ type Result struct {
 	Begin     bool        `json:"begin,omitempty"`
 	Parse     string      `json:"parse"`
 	Tc        string      `json:"tc"`
+	Assumed   int         `json:"assumed"`
+	NProcs    int         `json:"nprocs"`
 	Ran       bool        `json:"ran"`
 	Dump      interface{} `json:"dump,omitempty"`
 	Events    []Ev        `json:"events,omitempty"`
@@ -105,6 +107,8 @@ func runJob(j Job) (res Result) {
 		return res
 	}
 	res.Parse = "ok"
+	res.Assumed = len(assumed)
+	res.NProcs = len(procs)
 	genv.LogLevels = []process.LogLevel{}
 	if j.Typecheck {
 		var t *tracer
